@@ -58,6 +58,7 @@ REQUIRED = {"all": ["runs", "completed_runs", "steps", "accepted_steps", "reject
                     "runs_under_a_jumping_wall_clock", "other_machine_set_up_on_the_same_directory",
                     "runs_on_chains_longer_than_30", "runs_with_flatness_criterion_one", "machines_from_a_reinitialised_front_end",
                     "runs_with_50_or_100_bins", "runs_with_odd_check_periods", "runs_over_unreachable_bins", "runs_of_five_iterations_over_two_bins"]}
+REQUIRED["thorough"] = REQUIRED["all"] + ["runs_with_ln_dos_beyond_5000", "runs_of_six_iterations_in_one_bin_ln_dos_beyond_10000"]
 NRUNS = {"quick": 160, "thorough": 1200}
 STEP_BUDGET = {"quick": 3000, "thorough": 30000}
 WATCHDOG = {"quick": 1200, "thorough": 6 * 3600}
@@ -145,6 +146,15 @@ def cases(tier, seed):
             # ln-DOS entries beyond 5000: a single 12000-step iteration over two bins
             yield {"s": seq, "M": 2, "a": 0, "b": 2, "flatchk": 12000, "flatcrit": 0.0, "conv": "e0.6",
                    "frozen": [], "hostile": False, "o": rng.randrange(1 << 30), "twice": False, "huge_g": True}
+            continue
+        if i % 160 == 23 and tier == "thorough":
+            # six iterations of 5201 steps in ONE bin: ln-DOS passes 10^4 with five decimals in use (5201/32 = 162.53125); the DOS files
+            # carry six decimals whatever the magnitude
+            pat8 = [1, 1, 1, -1, -1, -1, 0, 0]
+            rng.shuffle(pat8)
+            yield {"s": gen.spell_plain(pat8), "M": 1, "a": 0, "b": 1, "flatchk": 5201, "flatcrit": 0.0, "conv": "e1/64",
+                   "frozen": [], "hostile": False, "o": rng.randrange(1 << 30), "twice": False, "six_iter_one_bin": True,
+                   "budget": 40000, "tape_budget": 600000}
             continue
         if i % 16 == 7:
             # a long first iteration with few bins: ln-DOS entries grow past ln(DBL_MAX) ~ 709.8 while ln f is still 1
@@ -253,7 +263,7 @@ def nonaligned_range(rng):
     return None
 
 
-CONV = {"e0.05": math.exp(0.05), "e": math.e, "3.0": 3.0, "e+ulp": math.nextafter(math.e, 3.0), "e0.6": math.exp(0.6), "e0.3": math.exp(0.3), "1.2": 1.2, "e0.1": math.exp(0.1), "default": math.exp(0.000001),
+CONV = {"e1/64": math.exp(2.0 ** -6), "e0.05": math.exp(0.05), "e": math.e, "3.0": 3.0, "e+ulp": math.nextafter(math.e, 3.0), "e0.6": math.exp(0.6), "e0.3": math.exp(0.3), "1.2": 1.2, "e0.1": math.exp(0.1), "default": math.exp(0.000001),
         "1+1e-10": 1.0 + 1e-10, "1+1e-12": 1.0 + 1e-12}
 
 
@@ -282,7 +292,7 @@ class Monitor:
         self.flatchk = case["flatchk"]
         self.flatcrit = float(case["flatcrit"])
         self.conv = CONV[case["conv"]]
-        self.budget = STEP_BUDGET[_cfg["tier"]]
+        self.budget = case.get("budget") or STEP_BUDGET[_cfg["tier"]]
         self.g = None
         self.H = None
         self.f = None
@@ -533,7 +543,7 @@ def check_files(rep, mon, case, outdir, result, S):
         lines = [l for l in rd(name)[1:] if l.strip()]
         want = [(mon.centres[i], mon.g[i]) for i in range(lo, hi)]
         got = [parse_floats(l) for l in lines]
-        if len(got) != len(want) or any(len(gk) != 2 or abs(gk[0] - w[0]) > 5.1e-4 or abs(gk[1] - w[1]) > 5.1e-7 * (1 + abs(w[1])) + 1e-6
+        if len(got) != len(want) or any(len(gk) != 2 or abs(gk[0] - w[0]) > 5.1e-4 or abs(gk[1] - w[1]) > 5.1e-7 + 1e-13 * abs(w[1])
                                         for gk, w in zip(got, want)):
             bad("dos_file", "%s holds %r, expected %r" % (name, got, want))
             return
@@ -605,7 +615,7 @@ def judge(case, rep, S):
     if case.get("hostile"):
         hostile = [[rng.choice(["lo", "hi"]) for _ in range(rng.randint(2, 24))]] + [[]]
         rep.cnt("hostile_tapes")
-    shim = Shim("%s/%s" % (ID, case["o"]), budget=max(20000, 3 * STEP_BUDGET[_cfg["tier"]]), hostile=hostile)
+    shim = Shim("%s/%s" % (ID, case["o"]), budget=max(20000, 3 * STEP_BUDGET[_cfg["tier"]], case.get("tape_budget", 0)), hostile=hostile)
     mon = Monitor(rep, case, shim)
     mon.truncated = False
     outdir = tempfile.mkdtemp(dir=_cfg["tmp"])
@@ -615,7 +625,7 @@ def judge(case, rep, S):
         rep.cnt("runs_on_chains_longer_than_30")
     if case.get("crit_one"):
         rep.cnt("runs_with_flatness_criterion_one")
-    for key_, cnt_ in (("huge_g", "runs_with_ln_dos_beyond_5000"), ("five_iter", "runs_of_five_iterations_over_two_bins"), ("fine", "runs_with_50_or_100_bins"), ("odd_period", "runs_with_odd_check_periods"), ("unreachable", "runs_over_unreachable_bins")):
+    for key_, cnt_ in (("huge_g", "runs_with_ln_dos_beyond_5000"), ("five_iter", "runs_of_five_iterations_over_two_bins"), ("six_iter_one_bin", "runs_of_six_iterations_in_one_bin_ln_dos_beyond_10000"), ("fine", "runs_with_50_or_100_bins"), ("odd_period", "runs_with_odd_check_periods"), ("unreachable", "runs_over_unreachable_bins")):
         if case.get(key_):
             rep.cnt(cnt_)
     if (a, b) != (0, Mb):
